@@ -65,7 +65,7 @@ CHECKS["C01"] = dict(
             dict(harness="val", variant="asan", args=["--mode", "values"], prefix="values_"),
             dict(harness="val", variant="asan", args=["--mode", "align"], prefix="align_"),
             dict(harness="ser", variant="asan", args=["--mode", "roundtrip", "--structs", "block"], prefix="serrt_")],
-    rule="stateless DFS, every history of length 0..D per configuration; structure round trip (E-SER): each of the 15 block-level structures x member subsets x {small, widest} values: write(x)=B, a fresh object and an object that held the fully populated variant before both read B and must serialise to B again; value product: every field x every boundary value alone / inside the full record / removed from it (pairs of fields thinned); alignment sweep: a padding string of every length 0..2100 (+ 4095..70000) shifts a record stream with 64-bit values and a preamble with text members across every position of the encoder buffer; two long traces (3000 records in one block, 200 blocks of 3); non-trivial = at least one operation; distinct by construction",
+    rule="stateless DFS, every history of length 0..D per configuration; structure round trip (E-SER): each of the 15 block-level structures x member subsets x {small, widest} values: write(x)=B, a fresh object and an object that held the fully populated variant before both read B and must serialise to B again; value product: every field x every boundary value alone / inside the full record / removed from it (pairs of fields thinned); alignment sweep: a padding string of every length 0..2100 (+ 4095..70000) shifts a record stream with 64-bit values and a preamble with text members across every position of the encoder buffer; long traces (70000 records with 70000 distinct table values in one block; 200 blocks of 3; 65536+70000 blocks with a rotation; 300 parameter sets; RR lists of 255/256/300/70000 records and names / rdata / payloads of 255..70000 bytes); non-trivial = at least one operation; distinct by construction",
     bound_quick="length <= 3 over 16 ops, 19 configurations", bound_thorough="length <= 4, 64 configurations",
     assumptions=["statistics passed together with an AEC/MM that other_data_hints reject are ignored (model follows the code; the property text is silent)"],
 )
